@@ -88,8 +88,11 @@ EnumExtend == /\ evn < MAXN
                    /\ UNCHANGED <<twin, pc, last, fam, tid, tl, tok, twhy, tdevs>>
 \* a complete history is printed exactly once and not extended.  (No CONSTRAINT is used for this: TLC's
 \* simulator retries for ever when every successor of a state violates a constraint.)
+\* NOVEL = 1 (quick tier): the histories over the base catalogue alone are enumerated by the "full" run already, the
+\* re-declaration runs print only the histories that contain a re-declaration
+Novel == ("NOVEL" \notin DOMAIN IOEnv) \/ IOEnv.NOVEL # "1" \/ \E n \in 1..Len(hist) : hist[n].k \in RedeclKinds
 EnumFinish == /\ evn = MAXN /\ tl = 0
-              /\ PrintT(ToJson([h |-> hist, tj |-> fam.tj, late |-> fam.late]))
+              /\ Novel => PrintT(ToJson([h |-> hist, tj |-> fam.tj, late |-> fam.late]))
               /\ tl' = 1
               /\ UNCHANGED <<cmvars, hist, fam, tid, tok, twhy, tdevs>>
 EnumNext == EnumExtend \/ EnumFinish
